@@ -664,6 +664,11 @@ var modsB = map[string]string{
 		"func bx() {\n\treturn b.getx()\n}\nfunc bsetx(v) {\n\tb.setx(v)\n}\n",
 	"d/b.risor": "tick(\"d/b\")\nx := \"d/b.x0\"\n" + modAPI, // shares its short name with the top-level b
 	"e.risor":   "import b\ntick(\"e\")\nx := \"e.x0\"\nerror(\"boom\")\n",
+	// two modules that import each other: whatever becomes of the import (an error is fine), neither body runs more
+	// than once per attempt
+	"cy1.risor":    "tick(\"cy1\")\nimport cy2\nx := \"cy1.x0\"\n" + modAPI,
+	"cy2.risor":    "tick(\"cy2\")\nimport cy1\nx := \"cy2.x0\"\n" + modAPI,
+	"selfie.risor": "tick(\"selfie\")\nimport selfie\nx := \"selfie.x0\"\n" + modAPI,
 	// two modules in different directories whose files are byte-identical: they are still two modules
 	"t1/twin.risor": "tick(\"twin\")\nx := \"twin.x0\"\n" + modAPI,
 	"t2/twin.risor": "tick(\"twin\")\nx := \"twin.x0\"\n" + modAPI,
@@ -696,6 +701,7 @@ type model struct {
 	sx      string
 	sitems  []string
 	eTries  int
+	cyTries int
 	mutated map[string]bool
 }
 
@@ -741,6 +747,9 @@ func (m *model) key() string {
 	e := ""
 	if m.eTries > 0 {
 		e = "|e-failed"
+	}
+	if m.cyTries > 0 {
+		e += "|cycle-tried"
 	}
 	var mu []string
 	for k := range m.mutated {
@@ -870,6 +879,14 @@ var letters = []letter{
 		m.eTries++
 		return "try(func() {\n\timport e\n})"
 	}},
+	{"try(import cy1): cy1 and cy2 import each other", func(m *model, pos int) string {
+		m.cyTries++
+		return "try(func() {\n\timport cy1\n})"
+	}},
+	{"try(import selfie): a module that imports itself", func(m *model, pos int) string {
+		m.cyTries++
+		return "try(func() {\n\timport selfie\n})"
+	}},
 	{"from b import setx inside a function", func(m *model, pos int) string {
 		m.load("b")
 		g := fmt.Sprintf("g%d", pos)
@@ -916,11 +933,12 @@ type probe struct {
 }
 
 type script struct {
-	Src    string
-	Probes []probe
-	Key    string
-	Loaded map[string]bool
-	ETries int
+	Src     string
+	Probes  []probe
+	Key     string
+	Loaded  map[string]bool
+	ETries  int
+	CyTries int
 }
 
 func renderList(xs []string) string { return "[" + strings.Join(xs, ", ") + "]" }
@@ -994,6 +1012,7 @@ func genScript(seq []int) script {
 	sc.Src = sb.String()
 	sc.Loaded = m.loaded
 	sc.ETries = m.eTries
+	sc.CyTries = m.cyTries
 	return sc
 }
 
@@ -1059,6 +1078,11 @@ func judgeB(col *collector, idx int, c caseB, sc script, res result) (bad []stri
 			rep("module-body-ran-more-than-once", fmt.Sprintf("top-level code of module %q ran %d times in one evaluation", mod, got), tickKey, "at most once")
 		case got != want:
 			rep("module-body-run-count-differs-from-model", fmt.Sprintf("top-level code of module %q ran %d times, the model says %d", mod, got, want), tickKey, fmt.Sprint(want))
+		}
+	}
+	for _, mod := range []string{"cy1", "cy2", "selfie"} {
+		if got := counts[mod]; got > sc.CyTries {
+			rep("module-body-ran-more-than-once:import-cycle", fmt.Sprintf("top-level code of module %q, which is part of an import cycle, ran %d times in %d import attempts", mod, got, sc.CyTries), tickKey, "at most once per attempt")
 		}
 	}
 	wantTwins := 0
